@@ -384,7 +384,8 @@ func (w *World) EnabledRelays() []Enabled {
 			if !HasClient(x, e.Name) {
 				continue
 			}
-			if HasCommitment(e, k) && !HasReceipt(x, k) && k.Seq > CleanPoint(x, k.Src, k.Dst) {
+			// cleaned or not is the source chain's word (hops[0]): a hop whose clean point ran ahead of it still gets the relay
+			if HasCommitment(e, k) && !HasReceipt(x, k) && k.Seq > CleanPoint(w.Chain(hops[0]), k.Src, k.Dst) {
 				out = append(out, Enabled{Kind: "recv", Rec: rec, On: x.Name, From: e.Name})
 			}
 		}
